@@ -120,6 +120,13 @@ theorem tie_delete_delivery (shape : Nat) (op : Op) (h : delUnderstood shape = t
   rw [e1, e2]
   simp [deliverDel, handlerForwardsDel, h]
 
+/-- onPodDelete / onPodGroupDelete understand exactly the two shapes `delUnderstood` says: the object, or a
+    cache.DeletedFinalStateUnknown by value (not a pointer to one) around an object of the right type -/
+theorem tie_delete_shapes :
+    C04.deleteTypeAsserts =
+      [("onPodDelete", ["*Pod", "DeletedFinalStateUnknown", "*Pod"]),
+       ("onPodGroupDelete", ["*PodGroup", "DeletedFinalStateUnknown", "*PodGroup"])] := by decide
+
 theorem tie_getGang_one_section :
     C04.getGangLockShape = (1, 0, 1, 0, false) ∧ C04.getGangMapAccess = (1, 1) ∧ C04.getGangSections = 1 := by decide
 
